@@ -16,6 +16,29 @@ mod test {
     }
 
     #[test]
+    fn test_valid_string_escapes() {
+        let mut ws = VirtualWorkspace::new();
+        // code points that are not Unicode scalar values are valid in "\u{XXX}"
+        assert!(ws.has_no_diagnostic(
+            DiagnosticCode::SyntaxError,
+            r#"
+            local a = "\u{D800}\u{10FFFF}\u{110000}\u{7FFFFFFF}"
+        "#
+        ));
+        assert!(!ws.has_no_diagnostic(
+            DiagnosticCode::SyntaxError,
+            r#"
+            local a = "\u{80000000}"
+        "#
+        ));
+        // "\z" skips vertical tabs and form feeds as well
+        assert!(ws.has_no_diagnostic(
+            DiagnosticCode::SyntaxError,
+            "local a = \"x\\z \x0B\x0C\n  y\"\n"
+        ));
+    }
+
+    #[test]
     fn test_luajit_ull() {
         let mut ws = VirtualWorkspace::new();
         let mut config = ws.get_emmyrc();
